@@ -408,7 +408,10 @@ class ComponentLevel3( ComponentLevel2 ):
 
         obj = obj.get_parent_object()
         while obj.is_signal():
-          writer_prop[ obj ] = False
+          # an ancestor that is itself written stays a propagatable writer
+          # whatever the iteration order of the write set
+          if obj not in writer_prop:
+            writer_prop[ obj ] = False
           obj = obj.get_parent_object()
 
     # Find the host object of every net signal
@@ -475,6 +478,9 @@ class ComponentLevel3( ComponentLevel2 ):
               for obj in v.get_sibling_slices():
                 if obj.slice_overlap( v ):
                   if obj in writer_prop and writer_prop[ obj ]:
+                    # v may already be the writer through its written ancestor
+                    # (one block writing a signal and a slice of it)
+                    if has_writer and writer is v: break
                     assert not has_writer
                     has_writer, writer = True, v
                     # Shunning: is breaking out of here enough? If we
